@@ -51,6 +51,7 @@ type Cfg struct {
 	Store     bool `json:"store,omitempty"`    // WithStore(recording store): appends are trace events
 	PTimeout  bool `json:"ptimeout,omitempty"` // WithPersistenceTimeout(persistTimeout)
 	PErrH     bool `json:"perrH,omitempty"`    // WithPersistenceErrorHandler
+	CloseFails bool `json:"closeFails,omitempty"` // the store's Close fails every other time
 }
 
 const persistTimeout = 15 * time.Millisecond
@@ -140,6 +141,7 @@ type Drv struct {
 	nReg atomic.Int64
 	nPub atomic.Int64
 	nTok atomic.Int64
+	nClose atomic.Int64
 	rnd  *rand.Rand
 	pfail sync.Map // pub -> scripted outcome of its append
 	pubT  sync.Map // pub -> the name its event type is persisted under
@@ -159,8 +161,16 @@ func (s *closerStore) Append(ctx context.Context, e *eb.Event) (eb.Offset, error
 func (s *closerStore) Read(ctx context.Context, from eb.Offset, limit int) ([]*eb.StoredEvent, eb.Offset, error) {
 	return nil, from, nil
 }
-func (s *closerStore) Close() error {
-	s.d.Rec.Emit(map[string]any{"e": "close"})
+func (s *closerStore) Close() error { return s.d.closeStore() }
+
+// closeStore records the Close call; with cfg.CloseFails every second Close reports an error.
+func (d *Drv) closeStore() error {
+	n := d.nClose.Add(1)
+	if d.cfg.CloseFails && n%2 == 1 {
+		d.Rec.Emit(map[string]any{"e": "close", "ok": false})
+		return errors.New("store: close failed")
+	}
+	d.Rec.Emit(map[string]any{"e": "close", "ok": true})
 	return nil
 }
 
@@ -209,10 +219,7 @@ type closerRecStore struct {
 	recStore
 }
 
-func (s *closerRecStore) Close() error {
-	s.d.Rec.Emit(map[string]any{"e": "close"})
-	return nil
-}
+func (s *closerRecStore) Close() error { return s.d.closeStore() }
 
 type obs struct {
 	d    *Drv
